@@ -322,6 +322,9 @@ class PipeEnd(object):
         self.reset = False
         self.sent = bytearray()
         self.seg = None            # max bytes returned by one recv (segmentation), None = all
+        self.straddle = None       # k: every recv ends k bytes behind the end of a PDU of the incoming stream whenever possible
+        self._delivered = 0
+        self._bounds = [0]
         self.corked = bytearray()  # with net.cork: bytes written but not yet delivered (coalescing transport)
 
     def readable(self):
@@ -361,6 +364,15 @@ class PipeEnd(object):
             k = min(n, len(self.inq))
             if self.seg:
                 k = min(k, self.seg)
+            if self.straddle is not None and self.peer is not None:
+                # framing-aware segmentation: one whole PDU plus `straddle` bytes of the next one per read
+                stream = self.peer.sent
+                while self._bounds[-1] + 6 <= len(stream):
+                    self._bounds.append(self._bounds[-1] + 6 + int.from_bytes(stream[self._bounds[-1] + 2:self._bounds[-1] + 6], 'big'))
+                nxt = [b for b in self._bounds if b > self._delivered]
+                if nxt and nxt[0] + self.straddle - self._delivered <= k:
+                    k = nxt[0] + self.straddle - self._delivered
+            self._delivered += k
             out = bytes(self.inq[:k])
             del self.inq[:k]
             return out
@@ -411,6 +423,7 @@ class Net(object):
         self.fail_send_after_close = False
         self.nconn = 0
         self.seg = None
+        self.straddle = None
         self.cork = False
 
     def listen(self, addr, handler):
@@ -420,6 +433,7 @@ class Net(object):
         self.nconn += 1
         e = PipeEnd(self, 'c%d' % self.nconn)
         e.seg = self.seg
+        e.straddle = self.straddle
         self.ends.append(e)
         return e
 
@@ -429,6 +443,7 @@ class Net(object):
             raise OSError(111, 'Connection refused')
         server_end = PipeEnd(self, 's%d' % self.nconn)
         server_end.seg = self.seg
+        server_end.straddle = self.straddle
         self.ends.append(server_end)
         client_end.peer, server_end.peer = server_end, client_end
         handler = self.listeners[addr]
